@@ -6,6 +6,11 @@ VERIF = os.path.dirname(os.path.dirname(os.path.abspath(__file__)))
 ALL = ["C%02d" % i for i in range(1, 21)]
 
 CLAIMED = {
+ "C15": dict(
+   technique="TLA+ spec AliveSet.tla (property layer ChosenAlive / NobodyBeatsByTol / TolRule action property; NotifyLatencyChange, calcMinLatency, SetSelectionPolicy transcribed as implementation layer) model-checked exhaustively with TLC; simulated histories replayed on real AliveDialerSet/Dialer objects with an independent property-layer oracle and the model's per-step choice as drift oracle",
+   text="TLC checks over all histories (3 nodes, 4 latency values, per-node offsets, tolerance 0/2/3, policy switches, depth 6) that the transcribed algorithm keeps the chosen node alive, that no alive measured node beats it by the tolerance, and that the choice only moves for the reasons the property lists. Histories of length 10 are replayed on the real set (latency samples appended to the real Dialer collections, NotifyLatencyChange / SetSelectionPolicy), and after every step GetMinLatency (with every exclusion), GetRand/GetRandExcluded and Len are judged against the property statement from the harness's own bookkeeping.",
+   note="Set level (one group x network type); DialerGroup fallback chain and fixed(i) are not yet driven. Trusted: TLC. Latency unit 10ms.",
+   design="§3 C15"),
  "C20": dict(
    technique="TLA+ spec Reload.tla (signal handler, reload worker, main-loop completion, retirement waiters; one action per protocol primitive) model-checked exhaustively with TLC incl. liveness under weak fairness; BFS and simulated behaviours replayed on the real primitives of cmd/ with function-variable gates, seeded random gated walks, and a static path extraction of the worker's exits in run.go",
    text="TLC checks AtMostOne, SuppressBalanced (every muting Begin has an End that finds the counter positive), NeverWedged, AnsweredAll, the action property RefusedChangesNothing and the liveness property that the system always returns to accepting requests, over all interleavings of 3-4 signals with every worker stage, a failure at each stage and retirement completions. Behaviours are executed on the real tryQueueReloadRequest / coalesceReloadRequest / clearReloadPending / finishReloadSuccess/Failure / releaseReloadPendingAfterRetirement with the real suppression counter, gated at the package's own function variables; random walks with long preemption windows explore schedules outside the model; go/ast ties every exit of the real worker iteration to the modelled failure or hand-off sequence.",
